@@ -182,6 +182,15 @@ pub fn run_check(replay: Option<Value>) -> i32 {
                         if shape == 0 {
                             // the same homogeneous system with states of size -1e9 (atol scaled alike)
                             jobs.push((mi, *m, fi, ti, ji, shape, false, -1e9f64));
+                            // ... in units whose squares over- or underflow (2^600, 2^-600), and in units where the
+                            // whole error scale atol + rtol |y| is below the rounding unit of 1 (2^-50)
+                            // (with the analytic Jacobian: the differenced one is not scale-invariant, its last digits
+                            // leak into the invariant at the tolerance scale - C13 compares those runs)
+                            if ji == 0 {
+                                for e in [600i32, -600, -50] {
+                                    jobs.push((mi, *m, fi, ti, ji, shape, false, 2f64.powi(e)));
+                                }
+                            }
                             // ... and once with a binding step bound (max_step = span/40; coded as scale 2)
                             jobs.push((mi, *m, fi, ti, ji, shape, false, 2.0f64));
                         }
@@ -194,7 +203,7 @@ pub fn run_check(replay: Option<Value>) -> i32 {
         let (mi, m, fi, ti, ji, shape, backward, scale) = jobs[j];
         let bound_steps = scale == 2.0;
         let scale = if bound_steps { 1.0 } else { scale };
-        let key = format!("ladder:{}.{}.{}.{}{}{}{}", mi, fi, ti, ji, if shape == 1 { ".v" } else { "" }, if backward { ".b" } else { "" }, if bound_steps { ".m" } else if scale != 1.0 { ".s" } else { "" });
+        let key = format!("ladder:{}.{}.{}.{}{}{}{}", mi, fi, ti, ji, if shape == 1 { ".v" } else { "" }, if backward { ".b" } else { "" }, if bound_steps { ".m".to_string() } else if scale == -1e9 { ".s".to_string() } else if scale != 1.0 { format!(".s{}", scale.log2().round()) } else { String::new() });
         if let Some(o) = &only {
             if *o != key {
                 return None;
